@@ -18,6 +18,8 @@ def dump(v):
         return {"@model": type(v).__name__, "v": v.model_dump(by_alias=True, mode="json")}
     if isinstance(v, list):
         return [dump(x) for x in v]
+    if hasattr(v, "isoformat"):          # a parsed custom scalar (datetime.date): compare in its JSON spelling
+        return v.isoformat()
     return v
 
 
